@@ -12,6 +12,7 @@ import BtcVerif.Crypto.Secp256k1
 import BtcVerif.Model.Keys
 import BtcVerif.Proofs.Der
 import BtcVerif.Proofs.Keys
+import BtcVerif.Proofs.Ecdsa
 
 namespace BtcVerif.C13
 open BtcVerif.Crypto
@@ -195,6 +196,23 @@ theorem wif_wrong_version (chainVer ver : Nat) (payload : Bytes) (h : ver ≠ ch
     flag selects (OpenSSL contract of Model/Keys.lean) -/
 theorem pub_eq_reference (secret : Bytes) (c : Bool) :
     Model.Keys.pubOfSecret secret c = Secp256k1.encode (Secp256k1.mul (beNat secret) Secp256k1.G) c := rfl
+
+/-! ### ECDSA, abstractly (any prime-order module `E` over `ZMod q` with an even conversion `f`) -/
+
+section abstract
+variable {q : ℕ} [Fact q.Prime] {E : Type} [AddCommGroup E] [Module (ZMod q) E]
+
+/-- `verify_sign`: a signature made by the signing equation verifies under the signer's key -/
+theorem verify_sign (C : Ecdsa.Params q E) (d e k : ZMod q) (hR : k • C.g ≠ 0) (hr : Ecdsa.signR C k ≠ 0)
+    (hs : Ecdsa.signS C d e k ≠ 0) :
+    Ecdsa.Verify C (d • C.g) e (Ecdsa.signR C k) (Ecdsa.signS C d e k) := Ecdsa.verify_sign C d e k hR hr hs
+
+/-- `verify_lowS_twin`: `(r, s)` verifies exactly when `(r, n − s)` does, so low-S normalisation
+    (`lowS_spec`, `sign_spec`) never invalidates a signature and verification must accept both twins -/
+theorem verify_lowS_twin (C : Ecdsa.Params q E) (Q : E) (e r s : ZMod q) :
+    Ecdsa.Verify C Q e r s ↔ Ecdsa.Verify C Q e r (-s) := Ecdsa.verify_lowS_twin C Q e r s
+
+end abstract
 
 /-! ### non-vacuity -/
 
